@@ -21,6 +21,7 @@ FLOORS = {'C08.1': 6, 'C08.2': 2, 'C08.4': 2, 'C08.5': 2}
 def check(ctx):
     F = ctx.F
     obscure.check_sinks(ctx, 'C08.1', want=('encrypt',))
+    obscure.check_obscure_region(ctx, 'C08.1/action')
     P1, P2 = ('param', 1), ('param', 2)
     b = F.method1('Envelope', 'decrypt_subject')
     if b is None:
